@@ -26,9 +26,9 @@ def gen(rng, tier):
             b = gen_beliefs(rng, S, 1)[0]
             maxr = max(max(row) for row in m["R"])
             maxR = rng.choice([maxr, maxr + 1, maxr + rng.choice([0, 2, 5])])
-            out.append("rtbss %s %d %s %s %s" % (rng.choice(["dense", "sparse"]), min(h + 1, 4), Qs([maxR]), fmt_pomdp(m), L(Qs(b).split())))
+            out.append("rtbss %s %d %s %s %s" % (rng.choice(["dense", "sparse", "generic"]), min(h + 1, 4), Qs([maxR]), fmt_pomdp(m), L(Qs(b).split())))
         else:
             alg = rng.choice(["ip", "ip", "wit", "wit", "wit", "ls"])
             bs = gen_beliefs(rng, S, 6)
-            out.append("solve %s %s %d %s %d %s" % (alg, rng.choice(["dense", "dense", "sparse"]), h, fmt_pomdp(m), len(bs), " ".join(Qs(b) for b in bs)))
+            out.append("solve %s %s %d %s %d %s" % (alg, rng.choice(["dense", "dense", "sparse", "generic"]), h, fmt_pomdp(m), len(bs), " ".join(Qs(b) for b in bs)))
     return out
